@@ -33,7 +33,7 @@ from ..cfg import explore
 from ..rules import call_sites, node_calls
 from ..mutate import mutate, remove_stmts, replace_expr, replace_stmt, parse_stmt, parse_expr
 from ..model import AnalysisError
-from ..x_peval import UNK, peval, try_fold
+from ..x_peval import UNK, make_resolver, pure_self_methods, peval, try_fold
 
 TECHNIQUE = "partial evaluation of the transform's CFG over the full valuation space + call-sequence typestate + who-may-write / who-may-call"
 EXPLANATION = (
@@ -136,14 +136,17 @@ def check_first_chunk(ck):
                 env["@ret"] = "?"
         return None
 
+    resolver = make_resolver(ck.repo, WEB, GZ)
+    ksm = {m: None for m in pure_self_methods(ck.repo, WEB, GZ)}
+    ksm.update({"transform_chunk": None, "_compressible_type": None})
     n_val = 0
     names = ("Vary", "Content-Length", "Content-Encoding")
     for gz_in, finishing, compressible, big in itertools.product((False, True), repeat=4):
         for present in itertools.product((False, True), repeat=3):
             hin = frozenset(nm for nm, p in zip(names, present) if p)
             init = {FLAG: gz_in, fin: finishing, hd: hin, comp_key: compressible, len_key: (10 ** 6 if big else 0), "self.MIN_LENGTH": min_len,
-                    "@vary": None, "@ce": None, "@cl": None, "@transformed": False, "@chunkvar": chunk, "@ret": None}
-            states = peval(fi.cfg, init, hook=hook, known_self_methods={"transform_chunk": None, "_compressible_type": None}, track=lambda t: True)
+                    "@vary": None, "@ce": None, "@cl": None, "@transformed": False, "@chunkvar": chunk, "@ret": None, "@resolve": resolver}
+            states = peval(fi.cfg, init, hook=hook, known_self_methods=ksm, track=lambda t: True)
             exits = states.get(fi.cfg.exit.id, [])
             if not exits:
                 raise AnalysisError("transform_first_chunk has no normal exit")
@@ -167,6 +170,8 @@ def check_first_chunk(ck):
                 allowed = gz_in and compressible and "Content-Encoding" not in hin
                 ck.ob("C29.only-when-allowed", fi, fi.node, (not gz) or allowed, "compression is on only if the request accepted gzip, the type is compressible and no Content-Encoding was set: " + desc,
                       construct="compressing although accepts_gzip=%s compressible=%s encoding_present=%s" % (gz_in, compressible, "Content-Encoding" in hin))
+                ck.ob("C29.only-when-allowed", fi, fi.node, not (gz and finishing and not big), "an empty single-flush body (304/204/HEAD-style responses) is never turned into a non-empty gzip body: " + desc,
+                      construct="compressing an empty final body")
                 ce_ok = (env.get("@ce") == "gzip" and "Content-Encoding" in hout) if gz else (env.get("@ce") is None and (("Content-Encoding" in hout) == ("Content-Encoding" in hin)))
                 ck.ob("C29.encoding-header", fi, fi.node, ce_ok, "Content-Encoding: gzip is set exactly when the body is compressed: " + desc, construct="gzipping=%s but Content-Encoding set=%s" % (gz, env.get("@ce")))
                 ret = env.get("@ret")
@@ -220,8 +225,11 @@ def check_transform_chunk(ck):
             if not exits:
                 raise AnalysisError("transform_chunk has no normal exit")
             label = "gzipping=%s finishing=%s" % (gz, finishing)
-            for seq, ret, rdef in sorted({(env.get("@seq"), env.get("@ret"), env.get("@def:%s" % env.get("@ret"))) for _f, env in exits}, key=repr):
+            for seq, ret, rdef, empty in sorted({(env.get("@seq"), env.get("@ret"), env.get("@def:%s" % env.get("@ret")), (chunk, False) in _f) for _f, env in exits}, key=repr):
                 calls = [(o, m) for o, m, _a in seq]
+                if gz and not finishing and empty and seq == () and ret == chunk and rdef is None:
+                    ck.ob("C29.stream-discipline", fi, fi.node, True, "an empty, non-final chunk may be passed through without touching the stream (%s)" % label)
+                    continue
                 if not gz:
                     ck.ob("C29.stream-discipline", fi, fi.node, seq == () and ret == chunk and rdef is None, "not compressing: the chunk is returned unchanged and the gzip objects are not touched (%s)" % label,
                           construct="identity broken: calls=%s" % (calls,))
@@ -433,6 +441,7 @@ MUTANTS = [
     ("Vary set only when compressing", _in(GZ + ".transform_first_chunk", _vary_only_when_gzipping), "C29.vary"),
     ("Vary header overwritten with an unrelated value", _in(GZ + ".transform_first_chunk", replace_expr(lambda n: isinstance(n, ast.Constant) and n.value == ", Accept-Encoding", lambda n: ast.Constant(value=", Accept"))), "C29.vary"),
     ("existing Content-Encoding no longer prevents compression", _in(GZ + ".transform_first_chunk", _drop_conj("Content-Encoding")), "C29.only-when-allowed"),
+    ("size rule dropped: empty finishing bodies get compressed", _in(GZ + ".transform_first_chunk", _drop_conj("MIN_LENGTH")), "C29.only-when-allowed"),
     ("content type no longer consulted", _in(GZ + ".transform_first_chunk", _drop_conj("_compressible_type")), "C29.only-when-allowed"),
     ("compression decision recomputed even if the request did not accept gzip", _in(GZ + ".transform_first_chunk", _recompute_always), "C29.only-when-allowed"),
     ("_compressible_type accepts everything", _in(GZ + "._compressible_type", replace_expr(lambda n: isinstance(n, ast.BoolOp), lambda n: ast.Constant(value=True))), "C29.only-when-allowed"),
@@ -443,6 +452,8 @@ MUTANTS = [
     ("Content-Length recomputed from the uncompressed chunk", _in(GZ + ".transform_first_chunk", _cl_before_transform), "C29.content-length"),
     ("first chunk returned uncompressed", _in(GZ + ".transform_first_chunk", replace_stmt(lambda st: isinstance(st, ast.Assign) and "self.transform_chunk" in _u(st.value), lambda st: [parse_stmt("self.transform_chunk(b'', False)")])), "C29.first-chunk"),
     ("first chunk compressed with finishing=False", _in(GZ + ".transform_first_chunk", replace_expr(lambda n: q.is_call(n, "self.transform_chunk"), lambda n: ast.Call(func=n.func, args=[n.args[0], ast.Constant(value=False)], keywords=[]))), "C29.first-chunk"),
+    ("transform_chunk skips empty chunks, so an empty finishing chunk never closes the stream (seeded C29-adv1)", _in(GZ + ".transform_chunk", replace_expr(lambda n: isinstance(n, ast.Attribute) and q.dotted(n) == FLAG, lambda n: parse_expr("self._gzipping and chunk"))), "C29.stream-discipline"),
+    ("first chunk only compressed when non-empty", _in(GZ + ".transform_first_chunk", lambda root: _first_chunk_if_nonempty(root)), "C29.first-chunk"),
     ("gzip stream closed on every flush", _in(GZ + ".transform_chunk", replace_expr(lambda n: isinstance(n, ast.Attribute) and n.attr == "flush" and "_gzip_file" in _u(n), lambda n: ast.Attribute(value=n.value, attr="close", ctx=ast.Load()))), "C29.stream-discipline"),
     ("gzip stream never closed", _in(GZ + ".transform_chunk", replace_expr(lambda n: isinstance(n, ast.Attribute) and n.attr == "close" and "_gzip_file" in _u(n), lambda n: ast.Attribute(value=n.value, attr="flush", ctx=ast.Load()))), "C29.stream-discipline"),
     ("buffer not truncated after reading", _in(GZ + ".transform_chunk", remove_stmts(lambda st: "truncate" in _u(st))), "C29.stream-discipline"),
@@ -464,4 +475,15 @@ def _getvalue_first(root):
                         if isinstance(body[j], ast.If) and "close" in _u(body[j]):
                             body.insert(j, body.pop(i))
                             return True
+    return False
+
+
+def _first_chunk_if_nonempty(root):
+    for n in ast.walk(root):
+        body = getattr(n, "body", None)
+        if isinstance(body, list):
+            for i, st in enumerate(body):
+                if isinstance(st, ast.Assign) and "self.transform_chunk" in _u(st.value):
+                    body[i] = ast.If(test=ast.Name(id="chunk", ctx=ast.Load()), body=[st], orelse=[])
+                    return True
     return False
